@@ -421,12 +421,15 @@ func (in *inliner) calleeDecl(call *ast.CallExpr) (*types.Func, *ast.FuncDecl) {
 // inlinableBody: no defer/recover/goto/labels that could clash; returns whether the body contains a return.
 func inlinableBody(d *ast.FuncDecl) (ok bool, hasReturn bool) {
 	ok = true
+	allowed := lockDeferOf(d)
 	ast.Inspect(d.Body, func(n ast.Node) bool {
 		switch x := n.(type) {
 		case *ast.FuncLit:
 			return false
 		case *ast.DeferStmt:
-			ok = false
+			if x != allowed {
+				ok = false
+			}
 		case *ast.ReturnStmt:
 			hasReturn = true
 		case *ast.BranchStmt:
@@ -441,6 +444,53 @@ func inlinableBody(d *ast.FuncDecl) (ok bool, hasReturn bool) {
 		return true
 	})
 	return
+}
+
+// lockDeferOf: the helper starts with `X.Lock(); defer X.Unlock()` (or the read-lock pair) on the same X, and that
+// is its only defer. Such a helper is inlined as `X.Lock(); body; X.Unlock()` with the unlock placed behind the
+// labelled block every return leaves through — the same critical section when nothing panics (a panic inside would
+// leave the lock held where the defer released it; no rule reasons about panics while a lock is held).
+func lockDeferOf(d *ast.FuncDecl) *ast.DeferStmt {
+	if d.Body == nil || len(d.Body.List) < 2 {
+		return nil
+	}
+	es, ok := d.Body.List[0].(*ast.ExprStmt)
+	if !ok {
+		return nil
+	}
+	lc, ok := es.X.(*ast.CallExpr)
+	if !ok || len(lc.Args) != 0 {
+		return nil
+	}
+	ls, ok := lc.Fun.(*ast.SelectorExpr)
+	if !ok {
+		return nil
+	}
+	df, ok := d.Body.List[1].(*ast.DeferStmt)
+	if !ok || len(df.Call.Args) != 0 {
+		return nil
+	}
+	us, ok := df.Call.Fun.(*ast.SelectorExpr)
+	if !ok || types.ExprString(us.X) != types.ExprString(ls.X) {
+		return nil
+	}
+	if !(ls.Sel.Name == "Lock" && us.Sel.Name == "Unlock" || ls.Sel.Name == "RLock" && us.Sel.Name == "RUnlock") {
+		return nil
+	}
+	n := 0
+	ast.Inspect(d.Body, func(x ast.Node) bool {
+		if _, isLit := x.(*ast.FuncLit); isLit {
+			return false
+		}
+		if _, isD := x.(*ast.DeferStmt); isD {
+			n++
+		}
+		return true
+	})
+	if n != 1 {
+		return nil
+	}
+	return df
 }
 
 func (in *inliner) rewriteBlock(b *ast.BlockStmt, stack map[*ast.FuncDecl]bool, depth int) {
@@ -713,6 +763,10 @@ func (in *inliner) inlineCallStmt0(call *ast.CallExpr, stack map[*ast.FuncDecl]b
 	if !ok {
 		return rv, nil
 	}
+	lockDefer := lockDeferOf(d)
+	if lockDefer != nil && tail {
+		return rv, nil
+	}
 	if withResults && !tail {
 		in.label++
 		for _, fld := range d.Type.Results.List {
@@ -793,6 +847,11 @@ func (in *inliner) inlineCallStmt0(call *ast.CallExpr, stack map[*ast.FuncDecl]b
 		blk.List = append(blk.List, &ast.AssignStmt{Lhs: lhs, TokPos: pos, Tok: tok, Rhs: rhs})
 	}
 	body := in.clone(d.Body).(*ast.BlockStmt)
+	var unlock ast.Stmt
+	if lockDefer != nil {
+		unlock = &ast.ExprStmt{X: body.List[1].(*ast.DeferStmt).Call}
+		body.List = append(body.List[:1:1], body.List[2:]...)
+	}
 	nstack := map[*ast.FuncDecl]bool{d: true}
 	for k := range stack {
 		nstack[k] = true
@@ -811,6 +870,9 @@ func (in *inliner) inlineCallStmt0(call *ast.CallExpr, stack map[*ast.FuncDecl]b
 	} else {
 		blk.List = append(blk.List, body)
 		in.rewriteList(&body.List, nstack, depth+1)
+	}
+	if unlock != nil {
+		blk.List = append(blk.List, unlock)
 	}
 	in.inlined[FuncDisplay(f)] = true
 	in.inlinedObj[f] = true
